@@ -137,7 +137,7 @@ theorem kcLoop_spec (dist : α → α → D) (eps : D) (data : List (Elem α)) :
     have hstopCase : (∀ c ∈ prev ++ [last], c < data.length) ∧
         (prev ++ [last]).Pairwise (FarApart dist eps data) ∧
         (prev ++ [last]).length ≤ prev.length + 1 + (n + 1) ∧ prev.length + 1 ≤ (prev ++ [last]).length :=
-      ⟨hbase, hpw, by simp; omega, by simp⟩
+      ⟨hbase, hpw, by simp, by simp⟩
     cases hM : r.2.2 with
     | none => simpa using hstopCase
     | some M =>
@@ -200,5 +200,157 @@ theorem kcenters_spec (dist : α → α → D) (eps : D) (data : List (Elem α))
   simpa [kcenters] using this
 
 end KCenters
+
+
+/-! ### the first-closest centre of a centre is itself -/
+
+section ArgMin
+variable [LinearOrder D]
+
+theorem argminGo_keep : ∀ (ds : List D) (idx k : Nat) (best : D), (∀ w ∈ ds, ¬ w < best) →
+    argminGo ds idx k best = k
+  | [], _, _, _, _ => rfl
+  | d :: ds, idx, k, best, h => by
+    unfold argminGo
+    rw [if_neg (h d (by simp))]
+    exact argminGo_keep ds (idx + 1) k best (fun w hw => h w (List.mem_cons_of_mem _ hw))
+
+theorem argminGo_find : ∀ (ds : List D) (idx k : Nat) (best : D) (t : Nat) (v : D),
+    ds[t]? = some v → v < best → (∀ (j : Nat) (w : D), j < t → ds[j]? = some w → v < w) →
+    (∀ (j : Nat) (w : D), ds[j]? = some w → v ≤ w) → argminGo ds idx k best = idx + t
+  | [], _, _, _, t, v, h, _, _, _ => by simp at h
+  | d :: ds, idx, k, best, 0, v, h, hb, _, hge => by
+    simp only [List.getElem?_cons_zero, Option.some.injEq] at h
+    subst h
+    unfold argminGo
+    rw [if_pos hb]
+    rw [argminGo_keep ds (idx + 1) idx d]
+    · rfl
+    · intro w hw
+      obtain ⟨j, hj⟩ := List.mem_iff_getElem?.mp hw
+      exact not_lt.mpr (hge (j + 1) w (by simpa using hj))
+  | d :: ds, idx, k, best, t + 1, v, h, hb, hlt, hge => by
+    simp only [List.getElem?_cons_succ] at h
+    have hvd : v < d := hlt 0 d (by omega) (by simp)
+    have hlt' : ∀ (j : Nat) (w : D), j < t → ds[j]? = some w → v < w :=
+      fun j w hj hw => hlt (j + 1) w (by omega) (by simpa using hw)
+    have hge' : ∀ (j : Nat) (w : D), ds[j]? = some w → v ≤ w :=
+      fun j w hw => hge (j + 1) w (by simpa using hw)
+    unfold argminGo
+    split
+    · rw [argminGo_find ds (idx + 1) idx d t v h hvd hlt' hge']; omega
+    · rw [argminGo_find ds (idx + 1) k best t v h hb hlt' hge']; omega
+
+theorem argminFirst_eq (l : List D) (i : Nat) (v : D) (hi : l[i]? = some v)
+    (hlt : ∀ (j : Nat) (w : D), j < i → l[j]? = some w → v < w)
+    (hge : ∀ (j : Nat) (w : D), l[j]? = some w → v ≤ w) : argminFirst l = i := by
+  cases l with
+  | nil => simp at hi
+  | cons d ds =>
+    cases i with
+    | zero =>
+      simp only [List.getElem?_cons_zero, Option.some.injEq] at hi
+      subst hi
+      simp only [argminFirst]
+      apply argminGo_keep
+      intro w hw
+      obtain ⟨j, hj⟩ := List.mem_iff_getElem?.mp hw
+      exact not_lt.mpr (hge (j + 1) w (by simpa using hj))
+    | succ t =>
+      simp only [List.getElem?_cons_succ] at hi
+      simp only [argminFirst]
+      rw [argminGo_find ds 1 0 d t v hi (hlt 0 d (by omega) (by simp))
+        (fun j w hj hw => hlt (j + 1) w (by omega) (by simpa using hw))
+        (fun j w hw => hge (j + 1) w (by simpa using hw))]
+      omega
+
+theorem getElem?_filterMap_of_isSome {β γ : Type} (f : β → Option γ) : ∀ (l : List β) (i : Nat),
+    (∀ a ∈ l, (f a).isSome = true) → (l.filterMap f)[i]? = (l[i]?).bind f
+  | [], i, _ => by simp
+  | a :: l, i, h => by
+    obtain ⟨b, hb⟩ := Option.isSome_iff_exists.mp (h a (by simp))
+    rw [List.filterMap_cons_some hb]
+    cases i with
+    | zero => simp [hb]
+    | succ i =>
+      simp only [List.getElem?_cons_succ]
+      exact getElem?_filterMap_of_isSome f l i (fun a' ha' => h a' (List.mem_cons_of_mem _ ha'))
+
+variable [OfNat D 0]
+
+/-- the assignment `split` computes for `x`: index of the first closest pivot. -/
+def Asg (dist : α → α → D) (ps : List (Elem α)) (x : Elem α) : Nat :=
+  argminFirst (ps.map (fun p => dist x.val p.val))
+
+/-- the metric facts the greedy argument needs. -/
+structure DistOK (dist : α → α → D) (eps : D) : Prop where
+  self : ∀ a, dist a a = 0
+  nonneg : ∀ a b, (0 : D) ≤ dist a b
+  eps_pos : (0 : D) < eps
+
+/-- the pivot elements of a pivot index list. -/
+def pivElems (data : List (Elem α)) (pivots : List Nat) : List (Elem α) :=
+  pivots.filterMap (fun pi => data[pi]?)
+
+theorem pivElems_getElem? (data : List (Elem α)) (pivots : List Nat) (h : ∀ c ∈ pivots, c < data.length) (i : Nat) :
+    (pivElems data pivots)[i]? = (pivots[i]?).bind (fun pi => data[pi]?) := by
+  apply getElem?_filterMap_of_isSome
+  intro a ha
+  rw [List.getElem?_eq_getElem (h a ha)]
+  rfl
+
+theorem pivElems_length (data : List (Elem α)) (pivots : List Nat) (h : ∀ c ∈ pivots, c < data.length) :
+    (pivElems data pivots).length = pivots.length := by
+  unfold pivElems
+  induction pivots with
+  | nil => rfl
+  | cons a l ih =>
+    rw [List.filterMap_cons_some (List.getElem?_eq_getElem (h a (by simp)))]
+    simp [ih (fun c hc => h c (List.mem_cons_of_mem _ hc))]
+
+/-- **k-centers relation used by `split`**: pivot `i` is assigned to child `i`. -/
+theorem asg_pivot {dist : α → α → D} {eps : D} (hd : DistOK dist eps) (data : List (Elem α)) (pivots : List Nat)
+    (hr : ∀ c ∈ pivots, c < data.length) (hpw : pivots.Pairwise (FarApart dist eps data))
+    (i pi : Nat) (x : Elem α) (hi : pivots[i]? = some pi) (hx : data[pi]? = some x) :
+    Asg dist (pivElems data pivots) x = i := by
+  unfold Asg
+  apply argminFirst_eq _ i 0
+  · rw [List.getElem?_map, pivElems_getElem? data pivots hr, hi]
+    simp [hx, hd.self]
+  · intro j w hj hw
+    rw [List.getElem?_map, pivElems_getElem? data pivots hr] at hw
+    have hjlt : j < pivots.length := by
+      have := (List.getElem?_eq_some_iff.mp hi).1
+      omega
+    rw [List.getElem?_eq_getElem hjlt] at hw
+    have hpj := hr pivots[j] (List.getElem_mem hjlt)
+    simp only [Option.bind_some, List.getElem?_eq_getElem hpj, Option.map_some, Option.some.injEq] at hw
+    have hilt := (List.getElem?_eq_some_iff.mp hi).1
+    have hfar := (List.pairwise_iff_getElem.mp hpw) j i hjlt hilt hj
+    have hpi : pivots[i] = pi := (List.getElem?_eq_some_iff.mp hi).2
+    rw [hpi] at hfar
+    have := hfar data[pivots[j]] x (List.getElem?_eq_getElem hpj) hx
+    rw [← hw]
+    exact lt_of_lt_of_le hd.eps_pos this
+  · intro j w hw
+    rw [List.getElem?_map] at hw
+    cases hp : (pivElems data pivots)[j]? with
+    | none => simp [hp] at hw
+    | some p =>
+      simp only [hp, Option.map_some, Option.some.injEq] at hw
+      rw [← hw]
+      exact hd.nonneg _ _
+
+theorem pivots_nodup {dist : α → α → D} {eps : D} (hd : DistOK dist eps) (data : List (Elem α)) (pivots : List Nat)
+    (hr : ∀ c ∈ pivots, c < data.length) (hpw : pivots.Pairwise (FarApart dist eps data)) : pivots.Nodup := by
+  refine List.Pairwise.imp_of_mem ?_ hpw
+  intro a b ha _ hfar hab
+  subst hab
+  have hlt := hr a ha
+  have := hfar data[a] data[a] (List.getElem?_eq_getElem hlt) (List.getElem?_eq_getElem hlt)
+  rw [hd.self] at this
+  exact absurd (lt_of_lt_of_le hd.eps_pos this) (lt_irrefl _)
+
+end ArgMin
 
 end OmplModel.NN
